@@ -126,7 +126,7 @@ theorem request_roundtrip (F : Framing) (r : Req) (hp : C01.Plain r) (hw : PduSp
       | .tcp => f.bytes = tcpFrame f.tid f.pid f.uid r.fc data
       | .rtu rule => f.bytes = rtuFrame f.uid r.fc data ∧ f.tid = f.uid ∧ f.pid = 0 ∧ RtuSized rule (rtuFrame f.uid r.fc data)
       | .ascii => f.bytes = asciiFrame f.uid r.fc data ∧ f.tid = 0 ∧ f.pid = 0 ∧ f.uid < 256 ∧ r.fc < 256 ∧ Bytes.WF data
-      | .binary => f.bytes = binFrame f.uid r.fc data ∧ f.tid = 0 ∧ f.pid = 0 ∧ NoDelim (binBody f.uid r.fc data)) :
+      | .binary => f.bytes = binFrame f.uid r.fc data ∧ f.tid = 0 ∧ f.pid = 0 ∧ NoEnd (binBody f.uid r.fc data)) :
     feed (stepOf F) (fun pdu => (Impl.decReq pdu).map some) units single [] f.bytes =
       ([.deliver (PduSpec.normReq r) f.uid f.tid f.pid], []) := by
   obtain ⟨data, he, hpdu, hm⟩ := hf
@@ -145,7 +145,7 @@ theorem response_roundtrip (F : Framing) (r : Resp) (hw : C01.WFResp r) (units :
       | .tcp => f.bytes = tcpFrame f.tid f.pid f.uid r.fc data
       | .rtu rule => f.bytes = rtuFrame f.uid r.fc data ∧ f.tid = f.uid ∧ f.pid = 0 ∧ RtuSized rule (rtuFrame f.uid r.fc data)
       | .ascii => f.bytes = asciiFrame f.uid r.fc data ∧ f.tid = 0 ∧ f.pid = 0 ∧ f.uid < 256 ∧ r.fc < 256 ∧ Bytes.WF data
-      | .binary => f.bytes = binFrame f.uid r.fc data ∧ f.tid = 0 ∧ f.pid = 0 ∧ NoDelim (binBody f.uid r.fc data)) :
+      | .binary => f.bytes = binFrame f.uid r.fc data ∧ f.tid = 0 ∧ f.pid = 0 ∧ NoEnd (binBody f.uid r.fc data)) :
     feed (stepOf F) (fun pdu => .ok (Impl.decResp pdu)) units single [] f.bytes =
       ([.deliver (PduSpec.normResp r) f.uid f.tid f.pid], []) := by
   obtain ⟨data, he, hp, hm⟩ := hf
